@@ -6,6 +6,7 @@ import (
 	"path"
 	"sort"
 	"strings"
+	"sync"
 
 	"verif/harness/core"
 	"verif/harness/gen"
@@ -146,6 +147,64 @@ func (k *Walker) TwinProbe() {
 	k.W.C.Count("scale.twin-probes")
 }
 
+// LongHistory makes n small commits in a row (one changed file each, now and then on another branch), so that
+// counters, journals and parent chains pass 10, 100, 255, 256 entries.
+func (k *Walker) LongHistory(n int) {
+	for i := 0; i < n; i++ {
+		k.W.Write(fmt.Sprintf("long/f%d.txt", i%7), []byte(fmt.Sprintf("generation %d\n", i)))
+		k.goit("add", "long")
+		k.goit("commit", "-m", fmt.Sprintf("long history %d", i))
+		if i%50 == 49 {
+			k.goit("switch", "-c", fmt.Sprintf("long-%d", i))
+		}
+	}
+	k.W.C.Count("scale.long-histories")
+}
+
+var zipBoundaryMemo sync.Map // target compressed size -> body length for seed "zip-boundary"
+
+// BoundaryFiles writes files whose blob OBJECT has a size that is an exact multiple of a block: the encoded object
+// ("blob <n>\0" + bytes) is 32 KiB, 64 KiB, 96 KiB or 1 MiB long, or the compressed file is exactly 64 KiB / 1 MiB.
+// Chunked compressors and writers lose or refuse their last block exactly there.
+func (k *Walker) BoundaryFiles(dir string) []string {
+	var out []string
+	for _, total := range []int{32768, 65536, 98304, 1 << 20} {
+		if n, ok := gitfmt.BodyLenForEncoded("blob", total); ok {
+			p := fmt.Sprintf("%senc-%d.bin", dir, total)
+			k.W.EditRand(p, fmt.Sprint("enc-boundary-", total), int64(n))
+			out = append(out, p)
+		}
+	}
+	for _, T := range []int{65536, 1 << 20} {
+		var n int64
+		if v, ok := zipBoundaryMemo.Load(T); ok {
+			n = v.(int64)
+		} else {
+			n = int64(T - 64)
+			hit := false
+			for it := 0; it < 40 && n > 0; it++ {
+				L := len(gitfmt.EncodeObjectFile("blob", core.RandBytes("zip-boundary", n)))
+				if L == T {
+					hit = true
+					break
+				}
+				n += int64(T - L)
+			}
+			if !hit {
+				n = 0
+			}
+			zipBoundaryMemo.Store(T, n)
+		}
+		if n > 0 {
+			p := fmt.Sprintf("%szip-%d.bin", dir, T)
+			k.W.EditRand(p, "zip-boundary", n)
+			out = append(out, p)
+		}
+	}
+	k.W.C.Count("scale.boundary-file-histories")
+	return out
+}
+
 // goit runs a command, attaching the pending "constructed as invalid" tag if any.
 func (k *Walker) goit(argv ...string) *core.Step {
 	if k.invalid != "" {
@@ -252,6 +311,25 @@ func (k *Walker) message() string {
 	k.MsgN++
 	if k.MsgClass {
 		m, c := gen.Message(k.R, k.MsgN)
+		if k.chance(7) {
+			// lines that look like commit headers, naming objects that exist
+			r := k.W.State().Repo()
+			var tree, commit string
+			for _, id := range gitfmt.SortedKeys(r.Objects) {
+				if o, ok := r.Obj(id); ok {
+					if o.Kind == "tree" && (tree == "" || k.chance(30)) {
+						tree = id
+					}
+					if o.Kind == "commit" && (commit == "" || k.chance(30)) {
+						commit = id
+					}
+				}
+			}
+			if tree != "" && commit != "" {
+				m = fmt.Sprintf("headers in the message %d\n\ntree %s\nparent %s\nauthor Mallory M <m@example.net> 1 +0000\ncommitter Mallory M <m@example.net> 1 +0000\n\ntrailer", k.MsgN, tree, commit)
+				c = "header-lookalike"
+			}
+		}
 		k.W.C.Class("msg:" + c)
 		return m
 	}
@@ -367,7 +445,7 @@ func (k *Walker) onePathArg(cmd string) (string, string) {
 	sn := k.W.State()
 	if k.chance(k.Hostile) {
 		if k.Escape && k.chance(50) {
-			return pickS(k.R, []string{".goit", ".goit/HEAD", ".goit/index", "../x", "..", "/etc/hostname", "", ".goit/objects", "./.goit/config", "a/../../b", ".", ".", "./"}), "hostile"
+			return pickS(k.R, []string{".goit", ".goit/HEAD", ".goit/index", "../x", "..", k.W.SB.Root + "/o", "/nonexistent-root-dir/file", "../o", "../o", "", "../home/.goitconfig", "../home", "../home/../home/.goitconfig", "../w/../home/.goitconfig", ".goit/objects", "./.goit/config", "a/../../b", ".", ".", "./"}), "hostile"
 		}
 		k.invalid = "unknown-path"
 		return k.unknownPath(), "unknown"
@@ -499,6 +577,31 @@ func (k *Walker) Do(action string) {
 			}
 			w.Write(p, b)
 		}
+	case "edit-mod-old":
+		// other bytes, but a modification time in the past (an older file moved over it, cp -p, tar x, touch -d):
+		// defeats "not written since it was staged" shortcuts keyed on times
+		var cands []string
+		for _, p := range k.wtFiles() {
+			if p != ".goitignore" {
+				cands = append(cands, p)
+			}
+		}
+		if p, ok := k.pick(cands); ok {
+			w.Write(p, append([]byte("older draft\n"), k.content()...))
+			st := w.Edit("touch", p, nil)
+			_ = st
+		}
+	case "edit-twin-file":
+		// a sibling whose name is that of a tracked file plus the decoration a lock / temporary / backup copy would carry
+		if p, ok := k.pick(k.tracked()); ok {
+			q := p + pickS(k.R, []string{".tmp", ".tmp", ".lock", "~", ".orig", ".bak", ".new", ".swp", ".tmp~", ".part"})
+			if k.chance(15) {
+				q = path.Join(path.Dir(p), pickS(k.R, []string{"tmp-", ".", ".tmp-", "#"})+path.Base(p))
+			}
+			if gen.ValidPath(q) && !ExistsOnDisk(sn, q) {
+				w.Write(q, append([]byte("twin of "+p+"\n"), k.content()...))
+			}
+		}
 	case "edit-same":
 		if p, ok := k.pick(k.wtFiles()); ok {
 			w.Tag = map[string]string{"meta": "same-bytes"}
@@ -585,11 +688,16 @@ func (k *Walker) Do(action string) {
 			k.goit("ls-files", "-s")
 		}
 	case "rev-parse":
-		args := []string{"rev-parse", "HEAD"}
-		if b, ok := k.pick(k.branches()); ok {
-			args = append(args, b)
+		// one to five references in any order: HEAD in several spellings, branches, the same one twice
+		var refs []string
+		for i, n := 0, 1+k.R.IntN(5); i < n; i++ {
+			if b, ok := k.pick(k.branches()); ok && k.chance(60) {
+				refs = append(refs, b)
+			} else {
+				refs = append(refs, pickS(k.R, []string{"HEAD", "HEAD", "head", "Head"}))
+			}
 		}
-		k.goit(args...)
+		k.goit(append([]string{"rev-parse"}, refs...)...)
 	case "cat-file":
 		ids := gitfmt.SortedKeys(sn.Repo().Objects)
 		if id, ok := k.pick(ids); ok {
